@@ -49,10 +49,36 @@ def run(ctx):
     proof_ok = True
     try:
         ctx.build_go()
-        ctx.extract(["lexer"])
     except Broken as b:
         ctx.add_broken(b.what, b.detail)
         return ctx.finish("proof", {"evaluations": 0, "distinct_nontrivial": 0, "samples": []}, [])
+    try:
+        ctx.extract(["lexer"])
+    except Broken as b:
+        # The source no longer has the shape the translator knows: the theorems cannot be re-checked against it.
+        # Search for a failing input all the same: the documented scanner (which does not depend on the regenerated
+        # tables) from the last model driver that was built, against the implementation.
+        ctx.add_broken(b.what, b.detail)
+        n = 0
+        if os.path.exists(MODEL):
+            corpus, items = structured_texts()
+            texts = corpus + [a + b2 for a in items for b2 in items[:40]] + [gen_text(ctx.rng) for _ in range(4000)]
+            texts = [t.replace(b"\x00", b" ") or b" " for t in texts]
+            lines = [hx(t) for t in texts]
+            try:
+                impl = ctx.run_impl("scan", lines)
+                ref = ctx.run_model("scanref", lines)
+                ref41 = ctx.run_model("scanref41", lines)
+                f10 = [f for f in known_for("C05") if f["id"] == "F10"]
+                for t, i, r, r41 in zip(texts, impl, ref, ref41):
+                    n += 1
+                    if i != r and not (f10 and i == r41):
+                        ctx.add_violation("token stream differs from the documented scanner",
+                                          {"input_hex": hx(t), "input": t.decode("utf-8", "replace"), "implementation": i, "documented": r,
+                                           "note": "found while the translator tie was broken: " + b.what[:300]})
+            except Broken as b2:
+                ctx.add_broken(b2.what, b2.detail)
+        return ctx.finish("proof", {"evaluations": max(n, 0), "distinct_nontrivial": 0, "samples": [], "explanation": "translator tie broken; documented-scanner search only"}, [])
     try:
         ctx.prove("Emerge.Props.C05")
         if not quick:
